@@ -547,9 +547,64 @@ func c17Inline(r *mon.Run, text string, items []c17Item, ex string) {
 	if named.code != "ok" {
 		return
 	}
+	c17SharedRule(r, text, items, ex)
 	if named.example != inline.example || named.exErr != inline.exErr {
 		r.Violate("inline-example", key, fmt.Sprintf("example %s against rule %q: Example() with `enum: @e` = %q (err %q); with the list inline = %q (err %q)",
 			ex, mon.Trunc(text, 120), named.example, named.exErr, inline.example, inline.exErr), cs)
+	}
+}
+
+// c17SharedRule uses ONE rule object the way a project does: two members of one schema name it, then a second
+// schema gets the same object. Verdicts must equal those of the inline spelling, and Values() of the rule must
+// be the same before and after (a loader that edits the rule's memoised values in place shows here only).
+func c17SharedRule(r *mon.Run, text string, items []c17Item, ex string) {
+	r.Eval(1)
+	cs := c17Case{Text: text, Ex: ex}
+	key := text + " | example " + ex + " | shared rule object"
+	list := c17InlineList(items)
+	two := func(v string) string {
+		return "{\n  \"a\": " + ex + ", // {enum: " + v + "}\n  \"b\": " + ex + " // {enum: " + v + "}\n}"
+	}
+	var before, after, code1, code2 string
+	var verr error
+	if p := mon.Guard(func() {
+		rule := enum.New("@e", text)
+		vs, err := rule.Values()
+		before, verr = c17Render(vs), err
+		s1 := jschema.New("root", two("@e"))
+		if err := s1.AddRule("@e", rule); err != nil {
+			code1 = "addrule:" + c17Code(err)
+		} else {
+			code1 = c17Code(s1.Check())
+		}
+		s2 := jschema.New("root", ex+" // {enum: @e}")
+		if err := s2.AddRule("@e", rule); err != nil {
+			code2 = "addrule:" + c17Code(err)
+		} else {
+			code2 = c17Code(s2.Check())
+		}
+		vs, _ = rule.Values()
+		after = c17Render(vs)
+	}); p != nil {
+		r.Violate("panic", "shared-rule/"+p.Site, fmt.Sprintf("using one rule object %q in two schemas panicked: %s", mon.Trunc(text, 120), p.Value), cs)
+		return
+	}
+	if verr != nil {
+		return
+	}
+	if before != after {
+		r.Violate("values-stable", key, fmt.Sprintf("Values() of rule %q was %s before two schemas used the rule object and %s afterwards", mon.Trunc(text, 120), mon.Trunc(before, 160), mon.Trunc(after, 160)), cs)
+		return
+	}
+	var in1, in2 string
+	if p := mon.Guard(func() {
+		in1 = c17Code(jschema.New("root", two(list)).Check())
+		in2 = c17Code(jschema.New("root", ex+" // {enum: "+list+"}").Check())
+	}); p != nil {
+		return
+	}
+	if code1 != in1 || code2 != in2 {
+		r.Violate("inline-verdict", key, fmt.Sprintf("one rule object named by two members and then by a second schema gives %s / %s; the same lists inline give %s / %s (rule %q, example %s)", code1, code2, in1, in2, mon.Trunc(text, 120), ex), cs)
 	}
 }
 
